@@ -255,6 +255,13 @@ def run(R):
         R.check(init is not None and fields <= init_fields, "C16.HOLDER", c.qualname, R.site(c.module, c.node),
                 "%s is a threading.local subclass whose per-thread fields %s are created in __init__ (run once per thread)" % (c.name, sorted(fields)),
                 "%s: fields %s are not created in __init__ - they are not per-thread" % (c.name, sorted(fields - init_fields)))
+        # no __slots__ (nor any other data descriptor) for the per-thread fields: threading.local keeps per-thread values in a
+        # per-thread __dict__; a slot of a threading.local subclass is ONE cell shared by all threads
+        slots = [k for k in c.class_assigns if k == "__slots__"]
+        R.check(not slots, "C16.HOLDER", c.qualname + ":slots", R.site(c.module, c.node),
+                "%s does not declare __slots__ (its fields live in the per-thread dict)" % c.name,
+                "%s declares __slots__: slot attributes of a threading.local subclass are shared by every thread, while __init__ still runs for each "
+                "thread's first access - each new thread replaces the others' scheduler" % c.name)
         instances = [(t, mm) for mm in repo.modules.values() for t, v, n in repo.module_assigns(mm) if isinstance(v, ast.Call) and
                      (repo.resolve_dotted(mm, q.call_name(v) or "") or (None, None))[1] is c]
         R.check(bool(instances), "C16.HOLDER", c.qualname + ":instance", R.site(c.module, c.node), "one module-level instance holds the state", "no module-level instance of %s" % c.name)
